@@ -1,4 +1,3 @@
-NOT_CLAIMED = {}
 claim("C07",
       "property-based differential testing against a structural type model (rapid), plus bounded-exhaustive depth-1 pairs",
       "Generated type specs (depth <= 3, all kinds, dynamic placeholders, optional attributes, capsules) as pairs/triples that are clones, one-position mutants or independent; Type.Equals / TestConformance / HasDynamicTypes / JSON round trip / WithoutOptionalAttributesDeep are compared with the harness's own structural model. All ordered pairs of depth<=1 types are enumerated exhaustively. Exploration level: no absence claim beyond the generated space.",
